@@ -758,6 +758,7 @@ int __wrap_kill(pid_t pid, int sig)
     errno = ESRCH; return -1;
   }
   struct sk_proc *c = &K->proc[pi];
+  if (c->killfail) { sk_logev(LK_OTHER, pid, sig, c->handle, -EPERM); errno = EPERM; return -1; }   /* refused by the kernel: nothing is sent */
   sk_logev(LK_KILL, pid, sig, c->handle, 0);
   if (c->state == PS_RUNNING && sig != 0) {
     if (c->nsigs < 16) { c->sigs[c->nsigs].sig = sig; c->sigs[c->nsigs].t = K->now; c->nsigs++; }
